@@ -112,11 +112,16 @@ def _slave_case(draw):
         if draw(st.integers(0, 5)) == 0:
             blocks[k] = {'shape': 'default', 'values': [], 'bits': False}
     zero = draw(st.booleans())
+    zero0 = zero
     ops = []
     n = draw(st.integers(1, 10))
     for _ in range(n):
         if draw(st.integers(0, 11)) == 0:
             ops.append([0, 'reset'])
+            continue
+        if draw(st.integers(0, 14)) == 0:
+            ops.append([0, 'toggle-zero-mode'])        # zero_mode is a public attribute of a live context
+            zero = not zero
             continue
         fx = draw(st.sampled_from(sorted(FX_TABLE)))
         o = draw(_ops(blocks[FX_TABLE[fx]], 1, 1, with_reset=False))[0]
@@ -126,7 +131,7 @@ def _slave_case(draw):
             if o[1] < 0:
                 o[1] = 0
         ops.append([fx] + o)
-    return {'t': 'slave', 'blocks': blocks, 'zero_mode': zero, 'ops': ops}
+    return {'t': 'slave', 'blocks': blocks, 'zero_mode': zero0, 'ops': ops}
 
 
 @st.composite
@@ -287,6 +292,7 @@ def _run_slave(case):
             blocks[k] = ctx.store[k]
     big = set(k for k, b in case['blocks'].items() if b['shape'] == 'default')
     off = 0 if case['zero_mode'] else 1
+    zero_now = bool(case['zero_mode'])
     discs, labels = [], ['slave', 'zero_mode:%s' % case['zero_mode']] + (['default-tables:%d' % len(big)] if big else [])
     written = dict((k, set()) for k in blocks)
 
@@ -304,6 +310,12 @@ def _run_slave(case):
         return True
     try:
         for op in case['ops']:
+            if op[1] == 'toggle-zero-mode':
+                labels.append('zero-mode-switched')
+                zero_now = not zero_now
+                ctx.zero_mode = zero_now
+                off = 0 if zero_now else 1
+                continue
             if op[1] == 'reset':
                 labels.append('slave-reset')
                 ctx.reset()
@@ -327,7 +339,7 @@ def _run_slave(case):
                 labels.append('touches-boundary')
             got = ctx.validate(fx, a) if form == 'default-count' else ctx.validate(fx, a, c)
             if bool(got) != ok:
-                discs.append(Disc('validate', 'context.validate(fx=%d, %d, %d) = %r, model %r (zero_mode=%r, table %s extent %d..%d)' % (fx, a, c, got, ok, case['zero_mode'], t, lo, hi)))
+                discs.append(Disc('validate', 'context.validate(fx=%d, %d, %d) = %r, model %r (zero_mode=%r, table %s extent %d..%d)' % (fx, a, c, got, ok, zero_now, t, lo, hi)))
                 break
             if ok and name == 'get':
                 vals = ctx.getValues(fx, a) if form == 'default-count' else ctx.getValues(fx, a, c)
